@@ -478,6 +478,13 @@ SUBS = [
 
 KNOWN_PREDICATES = {}
 
+# thorough tier: coverage-guided campaigns (atheris/libFuzzer mutating the bytes Hypothesis draws from)
+FUZZ = {
+    "subs": ['rc', 'translate'],
+    "targets": ['cogent3.core.genetic_code', 'cogent3.core.new_genetic_code', 'cogent3.core.moltype', 'cogent3.core.new_moltype', 'cogent3.core.sequence', 'cogent3.core.new_sequence'],
+    "execs_thorough": 40_000, "jobs_thorough": 4, "execs_quick": 1000, "jobs_quick": 2,
+}
+
 META = {
     "technique": "exhaustive enumeration (27 codes x 64 codons, all IUPAC symbols/base subsets) plus Hypothesis-generated sequences, against pinned NCBI tables with TCAG index arithmetic",
     "level_text": "The finite part of the property (every code table entry through every single-codon entry point; complement and ambiguity maps of every IUPAC symbol for DNA/RNA, old and new moltypes) is enumerated completely; multi-codon behaviour (frames, strands, stop handling, views, collections, alignments, the translate_seqs app) is explored with thousands of generated canonical sequences per run, including lengths around the 256-codon boundary.",
